@@ -36,9 +36,53 @@ def sel_cases(P, tier):
     return out if tier == "thorough" else out[:8]
 
 
+def impossible_trace_obs():
+    """traces holding a choice OUTSIDE its distribution's support (log-density -inf): an unselected choice still contributes exactly 0
+    and the selected finite part is unaffected. The engine tracks +-inf / nan leaves exactly (SpecialIte); counterexamples are replayed
+    under jax.jit (what the staged arithmetic computes), not eagerly."""
+    import genjax
+    from genjax import ChoiceMapBuilder as C
+    from tensorflow_probability.substrates import jax as tfp
+
+    tfd = tfp.distributions
+
+    @genjax.gen
+    def m():
+        u = genjax.uniform(0.0, 2.0) @ "u"
+        _ = genjax.normal(u, 1.0) @ "y"
+
+    vm = genjax.uniform.vmap(in_axes=(0, 0))
+
+    def f(key, uval, yval):
+        tr, _ = m.importance(key, C["u"].set(uval) | C["y"].set(yval), ())
+        lu, ly = tfd.Uniform(0.0, 2.0).log_prob(uval), tfd.Normal(uval, 1.0).log_prob(yval)
+        return (tr.project(key, S.at["y"]), tr.project(key, S.none()), tr.project(key, S.at["u"]), tr.project(key, S.all())), (ly, jnp.float32(0.0), lu, lu + ly)
+
+    def fv(key, uvals):
+        lo, hi = jnp.zeros(2, jnp.float32), jnp.full((2,), 2.0, jnp.float32)
+        tr, _ = vm.importance(key, C[jnp.arange(2)].set(uvals), (lo, hi))
+        return (tr.project(key, S.none()), tr.project(key, S.all())), (jnp.float32(0.0), jnp.sum(tfd.Uniform(lo, hi).log_prob(uvals)))
+
+    def jit_replay(fn):
+        def replay(args):
+            from verif.engine import tree_close
+
+            lhs, rhs = jax.jit(fn)(*args)
+            ok, d = tree_close(lhs, rhs)
+            return (not ok), f"under jax.jit: {d}"
+
+        return replay
+
+    F = lambda v: jnp.asarray(v, jnp.float32)  # noqa: E731
+    return [Ob("C10/impossible-trace/static(uniform;normal)", f, (gfi.KEY, F(2.5), F(0.3)), replay=jit_replay(f), selfcheck=False, timeout_s=30,
+               note="the uniform site's value ranges over ALL reals (outside the support its log-density is -inf): project(selection not containing it) is the finite sum of the selected sites, project(none) == 0"),
+            Ob("C10/impossible-trace/vmap(uniform)", fv, (gfi.KEY, jnp.asarray([0.5, 2.5], jnp.float32)), replay=jit_replay(fv), selfcheck=False, timeout_s=30,
+               note="vmapped uniform with values over all reals: project(none) == 0, project(all) == the score")]
+
+
 def obligations(tier, seed):
     cat, names = gfi.prog_names(tier, lambda nm: "mask" not in nm and nm != "composed")
-    obs = []
+    obs = impossible_trace_obs()
     for nm in names:
         P = cat[nm]()
         if "project" not in P.supports:
